@@ -533,6 +533,244 @@ theorem C05_real_literal (ip fp : List Char) (dot : Bool) (exp : Option (Char ×
     simp only [lexToken, a1, a2, a3, a4, a5, a6, a7, lexNumber, lexBinaryInteger, lexOctalInteger,
       lexHexadecimalInteger, e2, e8, e16, map_error, orElse_error, hdec, hpf]
 
+/-! ### the two renderings of the real-literal grammar coincide -/
+
+private theorem splitAt_none (p : Char → Bool) (a : List Char) (h : ∀ c ∈ a, p c = false) :
+    Spec.splitAt? p a = none := by
+  induction a with
+  | nil => rfl
+  | cons c cs ih =>
+    simp [Spec.splitAt?, h c (by simp), ih (fun d hd => h d (by simp [hd]))]
+
+private theorem splitAt_append (p : Char → Bool) (a : List Char) (c : Char) (b : List Char)
+    (h : ∀ d ∈ a, p d = false) (hc : p c = true) :
+    Spec.splitAt? p (a ++ c :: b) = some (a, b) := by
+  induction a with
+  | nil => simp [Spec.splitAt?, hc]
+  | cons d ds ih =>
+    simp [Spec.splitAt?, h d (by simp), ih (fun x hx => h x (by simp [hx]))]
+
+def isExpChar (c : Char) : Bool := c == 'e' || c == 'E'
+def isDotChar (c : Char) : Bool := c == '.'
+
+private theorem digitString_no_exp_dot (s : List Char) (hs : optDigitString s = true) :
+    ∀ c ∈ s, isExpChar c = false ∧ isDotChar c = false := by
+  intro c hc
+  rcases optDigitString_all s hs c hc with h | h
+  · subst h; exact ⟨rfl, rfl⟩
+  · have := isAsciiDigit_of_digitVal c h
+    constructor
+    · cases he : isExpChar c with
+      | false => rfl
+      | true =>
+        simp only [isExpChar, Bool.or_eq_true, beq_iff_eq] at he
+        rcases he with e | e <;> subst e <;> simp [isAsciiDigit] at this
+    · cases he : isDotChar c with
+      | false => rfl
+      | true =>
+        simp only [isDotChar, beq_iff_eq] at he
+        subst he; simp [isAsciiDigit] at this
+
+
+private theorem optDigitString_spec (s : List Char) (h : optDigitString s = true) :
+    (s = [] ∨ Spec.isDigitString 10 s = true) := by
+  cases s with
+  | nil => exact Or.inl rfl
+  | cons c cs => right; simpa [optDigitString] using h
+
+/-- **the constructive grammar is contained in the flat one, with the same reading**: every spelling assembled
+by `realSpelling` from well-formed parts (as in `C05_real_literal`) is classified by the run-time
+specification `Spec.classify` as the real literal with exactly those mantissa digits, fraction length,
+exponent sign and exponent digits. -/
+theorem C05_classify_realSpelling (ip fp : List Char) (dot : Bool)
+    (exp : Option (Char × Option Bool × List Char))
+    (hip : optDigitString ip = true) (hfp : optDigitString fp = true) (hdot : dot = false → fp = [])
+    (hm : Spec.digitsOf ip ++ Spec.digitsOf fp ≠ [])
+    (hexp : ∀ E sg ep, exp = some (E, sg, ep) → (E = 'e' ∨ E = 'E') ∧ Spec.isLooseDigitString 10 ep = true)
+    (hreal : dot = true ∨ exp.isSome = true) :
+    Spec.classifyReal (realSpelling ip dot fp exp) =
+      some (.real (Spec.digitsOf ip ++ Spec.digitsOf fp) (Spec.digitsOf fp).length (expNegOf exp)
+        (Spec.digitsOf (expRunOf exp))) := by
+  have hipc := digitString_no_exp_dot ip hip
+  have hfpc := digitString_no_exp_dot fp hfp
+  -- the mantissa text and its split at the decimal point
+  have hmant_noexp : ∀ c ∈ ip ++ (if dot then '.' :: fp else []), isExpChar c = false := by
+    intro c hc
+    simp only [List.mem_append] at hc
+    rcases hc with hc | hc
+    · exact (hipc c hc).1
+    · cases dot with
+      | false => simp at hc
+      | true =>
+        simp only [if_true, List.mem_cons] at hc
+        rcases hc with rfl | hc
+        · rfl
+        · exact (hfpc c hc).1
+  have hsplitdot : Spec.splitAt? (· == '.') (ip ++ (if dot then '.' :: fp else [])) =
+      if dot then some (ip, fp) else none := by
+    cases dot with
+    | true => exact splitAt_append _ ip '.' fp (fun d hd => (hipc d hd).2) rfl
+    | false =>
+      simp only [Bool.false_eq_true, if_false, List.append_nil]
+      exact splitAt_none _ ip (fun d hd => (hipc d hd).2)
+  have hipok : (ip = [] || Spec.isDigitString 10 ip) = true := by
+    rcases optDigitString_spec ip hip with h | h <;> simp [h]
+  have hfpok : (fp = [] || Spec.isDigitString 10 fp) = true := by
+    rcases optDigitString_spec fp hfp with h | h <;> simp [h]
+  cases exp with
+  | none =>
+    have hd : dot = true := by simpa using hreal
+    subst hd
+    have hs : Spec.splitAt? (fun c => c == 'e' || c == 'E') (realSpelling ip true fp none) = none := by
+      simp only [realSpelling, expText, List.append_nil]
+      exact splitAt_none _ _ (fun c hc => by simpa [isExpChar] using hmant_noexp c (by simpa using hc))
+    have hsd : Spec.splitAt? (· == '.') (realSpelling ip true fp none) = some (ip, fp) := by
+      simpa [realSpelling, expText] using hsplitdot
+    simp only [Spec.classifyReal, hs, hsd]
+    have hm' : (Spec.digitsOf ip ++ Spec.digitsOf fp).isEmpty = false := by
+      cases h : Spec.digitsOf ip ++ Spec.digitsOf fp with
+      | nil => exact absurd h hm
+      | cons _ _ => rfl
+    have hnil : Spec.digitsOf [] = [] := rfl
+    simp [hipok, hfpok, hm', expNegOf, expRunOf, hnil]
+  | some t =>
+    obtain ⟨E, sg, ep⟩ := t
+    have ⟨hE, hep⟩ := hexp E sg ep rfl
+    have hEp : (E == 'e' || E == 'E') = true := by rcases hE with h | h <;> simp [h]
+    have hs : Spec.splitAt? (fun c => c == 'e' || c == 'E') (realSpelling ip dot fp (some (E, sg, ep))) =
+        some (ip ++ (if dot then '.' :: fp else []), signChars sg ++ ep) := by
+      simp only [realSpelling, expText]
+      exact splitAt_append _ _ E _ (fun c hc => by simpa [isExpChar] using hmant_noexp c hc) hEp
+    -- the head of `ep` is neither `+` nor `-`
+    have hephead : ∀ c r, ep = c :: r → c ≠ '+' ∧ c ≠ '-' := by
+      intro c r e
+      have hall := (isLoose_all 10 ep hep).1 c (by rw [e]; simp)
+      constructor <;> (intro h; subst h; simp [Spec.digitVal] at hall)
+    have hne : ep ≠ [] := (isLoose_all 10 ep hep).2
+    simp only [Spec.classifyReal, hs]
+    cases sg with
+    | none =>
+      cases hep' : ep with
+      | nil => exact absurd hep' hne
+      | cons c r =>
+        have ⟨h1, h2⟩ := hephead c r hep'
+        subst hep'
+        simp only [signChars, List.nil_append]
+        cases dot with
+        | true =>
+          have := hsplitdot; simp only [if_true] at this
+          split <;> simp_all [expNegOf, expRunOf, signNeg]
+        | false =>
+          have hf := hdot rfl; subst hf
+          have := hsplitdot; simp only [Bool.false_eq_true, if_false] at this
+          have hipne : ip ≠ [] := by intro e; subst e; simp [Spec.digitsOf] at hm
+          have hipd : Spec.isDigitString 10 ip = true := by
+            rcases optDigitString_spec ip hip with h | h
+            · exact absurd h hipne
+            · exact h
+          split <;> simp_all [expNegOf, expRunOf, signNeg, Spec.digitsOf]
+    | some b =>
+      cases b <;>
+      · simp only [signChars, List.cons_append, List.nil_append]
+        cases dot with
+        | true =>
+          have := hsplitdot; simp only [if_true] at this
+          simp_all [expNegOf, expRunOf, signNeg]
+        | false =>
+          have hf := hdot rfl; subst hf
+          have := hsplitdot; simp only [Bool.false_eq_true, if_false] at this
+          have hipne : ip ≠ [] := by intro e; subst e; simp [Spec.digitsOf] at hm
+          have hipd : Spec.isDigitString 10 ip = true := by
+            rcases optDigitString_spec ip hip with h | h
+            · exact absurd h hipne
+            · exact h
+          simp_all [expNegOf, expRunOf, signNeg, Spec.digitsOf]
+
+
+private theorem classify_eq_classifyReal (s : List Char)
+    (hp : ∀ c ∈ s, c ≠ 'b' ∧ c ≠ 'B' ∧ c ≠ 'o' ∧ c ≠ 'O' ∧ c ≠ 'x' ∧ c ≠ 'X')
+    (hnd : Spec.isDigitString 10 s = false) : Spec.classify s = Spec.classifyReal s := by
+  unfold Spec.classify
+  split
+  · rename_i p rest
+    obtain ⟨h1, h2, h3, h4, h5, h6⟩ := hp p (by simp)
+    simp [h1, h2, h3, h4, h5, h6, hnd]
+  · simp [hnd]
+
+/-- **`Spec.classify` on the constructive grammar**: the run-time specification reads every `realSpelling` as
+the real literal with exactly the parts it was assembled from — so the Bool spec evaluated on the
+implementation's output and theorem `C05_real_literal` speak about the same literals and the same value
+(`realMantissa`, `realExponent` = `Lit.realValue`). -/
+theorem C05_classify_realSpelling_full (ip fp : List Char) (dot : Bool)
+    (exp : Option (Char × Option Bool × List Char))
+    (hip : optDigitString ip = true) (hfp : optDigitString fp = true) (hdot : dot = false → fp = [])
+    (hm : Spec.digitsOf ip ++ Spec.digitsOf fp ≠ [])
+    (hexp : ∀ E sg ep, exp = some (E, sg, ep) → (E = 'e' ∨ E = 'E') ∧ Spec.isLooseDigitString 10 ep = true)
+    (hreal : dot = true ∨ exp.isSome = true) :
+    Spec.classify (realSpelling ip dot fp exp) =
+      some (.real (Spec.digitsOf ip ++ Spec.digitsOf fp) (Spec.digitsOf fp).length (expNegOf exp)
+        (Spec.digitsOf (expRunOf exp))) ∧
+    (Spec.Lit.real (Spec.digitsOf ip ++ Spec.digitsOf fp) (Spec.digitsOf fp).length (expNegOf exp)
+        (Spec.digitsOf (expRunOf exp))).realValue = some (realMantissa ip fp, realExponent fp exp) := by
+  refine ⟨?_, ?_⟩
+  · rw [← C05_classify_realSpelling ip fp dot exp hip hfp hdot hm hexp hreal]
+    apply classify_eq_classifyReal
+    · -- no radix-prefix letter anywhere in the spelling
+      have hnum : ∀ (t : List Char), (∀ c ∈ t, c = '_' ∨ Spec.digitVal c < 10) →
+          ∀ c ∈ t, c ≠ 'b' ∧ c ≠ 'B' ∧ c ≠ 'o' ∧ c ≠ 'O' ∧ c ≠ 'x' ∧ c ≠ 'X' := by
+        intro t ht c hc
+        rcases ht c hc with h | h
+        · subst h; decide
+        · refine ⟨?_, ?_, ?_, ?_, ?_, ?_⟩ <;> (intro e; subst e; simp [Spec.digitVal] at h)
+      intro c hc
+      simp only [realSpelling, List.mem_append] at hc
+      rcases hc with (hc | hc) | hc
+      · exact hnum ip (optDigitString_all ip hip) c hc
+      · cases dot with
+        | false => simp at hc
+        | true =>
+          simp only [if_true, List.mem_cons] at hc
+          rcases hc with rfl | hc
+          · decide
+          · exact hnum fp (optDigitString_all fp hfp) c hc
+      · cases exp with
+        | none => simp [expText] at hc
+        | some t =>
+          obtain ⟨E, sg, ep⟩ := t
+          have ⟨hE, hep⟩ := hexp E sg ep rfl
+          simp only [expText, List.cons_append, List.mem_cons, List.mem_append] at hc
+          rcases hc with rfl | hc | hc
+          · rcases hE with rfl | rfl <;> decide
+          · cases sg with
+            | none => simp [signChars] at hc
+            | some b => cases b <;> simp [signChars] at hc <;> subst hc <;> decide
+          · exact hnum ep (isLoose_all 10 ep hep).1 c hc
+    · -- it is not a plain digit string: it contains a `.` or an exponent marker
+      cases hds : Spec.isDigitString 10 (realSpelling ip dot fp exp) with
+      | false => rfl
+      | true =>
+        exfalso
+        have hall := isDigitString_all 10 _ hds
+        rcases hreal with hd | he
+        · subst hd
+          have := hall '.' (by simp [realSpelling])
+          rcases this with h | h
+          · exact absurd h (by decide)
+          · simp [Spec.digitVal] at h
+        · cases exp with
+          | none => simp at he
+          | some t =>
+            obtain ⟨E, sg, ep⟩ := t
+            have ⟨hE, _⟩ := hexp E sg ep rfl
+            have := hall E (by simp [realSpelling, expText])
+            rcases hE with rfl | rfl <;> rcases this with h | h <;>
+              first | exact absurd h (by decide) | simp [Spec.digitVal] at h
+  · cases exp with
+    | none => simp [Spec.Lit.realValue, realMantissa, realExponent, expNegOf, expRunOf, Spec.digitsOf, Spec.posValue]
+    | some t =>
+      obtain ⟨E, sg, ep⟩ := t
+      cases hs : signNeg sg <;> simp [Spec.Lit.realValue, realMantissa, realExponent, expNegOf, expRunOf, hs]
+
 /-! ### non-vacuity -/
 
 example : realSpelling "1__2__".toList true "3__4__".toList (some ('e', some true, "__1__5__".toList)) =
